@@ -15,12 +15,19 @@ def rand_bytes(rng, n):
     return bytes(rng.getrandbits(8) for _ in range(n))
 
 
+SPECIAL_CPS = [0xfeff, 0xfeff, 0x0, 0xfffd, 0xffff, 0xfffe, 0x7b, 0x7d, 0x25, 0x85, 0x2028, 0x10ffff]
+
+
 def rand_text(rng, nbytes):
     """valid UTF-8 of about nbytes bytes"""
     out = bytearray()
     while len(out) < nbytes:
         r = rng.random()
-        if r < 0.6:
+        if (not out and r < 0.15) or r < 0.03:
+            # code points that codecs, formatters and terminals like to treat specially: a leading U+FEFF (the 'utf-8-sig' BOM),
+            # NUL, noncharacters, braces and percent signs (str.format / % templates), line separators
+            c = rng.choice(SPECIAL_CPS)
+        elif r < 0.6:
             c = rng.randint(0x20, 0x7e)
         elif r < 0.75:
             c = rng.randint(0x80, 0x7ff)
@@ -180,12 +187,14 @@ def gen_violation(rng, cls, mid_message):
         code = rng.choice([0, 1, 999, 1004, 1005, 1006, 1014, 1015, 1016, 1100, 2000, 2999])
         return server_frame(8, close_payload(code, b'why'))
     if cls == 'bad-utf8-text':
-        bad = rng.choice([b'\xff', b'ab\xc0\xaf', b'\xed\xa0\x80', b'\xf4\x90\x80\x80', b'ok\xe2\x82', b'\x80'])
+        bad = rng.choice([b'\xff', b'ab\xc0\xaf', b'\xed\xa0\x80', b'\xf4\x90\x80\x80', b'ok\xe2\x82', b'\x80',
+                          # the bytes around the error end up in messages: format directives must not matter
+                          b'{"k": "\xe2\x82"}', b'set {} is empty \xc0\xaf', b'%s {0} \xff', b'{\xff'])
         if mid_message:
             return server_frame(0, bad, fin=1)      # only a violation if the open message is text: caller ensures
         return server_frame(1, bad)
     if cls == 'bad-utf8-close-reason':
-        return server_frame(8, close_payload(1000, rng.choice([b'\xff', b'x\xed\xa0\x80', b'\xe2\x82'])))
+        return server_frame(8, close_payload(1000, rng.choice([b'\xff', b'x\xed\xa0\x80', b'\xe2\x82', b'{0} {} \xff', b'%s{\xc0\xaf'])))
     raise ValueError(cls)
 
 
